@@ -56,7 +56,9 @@ func newPeerCommand(action peerAction, address string, id string) *peerCommand {
 // U<address>,<8-byte-id>  to unregister
 // If we don't have an ID, then it's old-format Refinery and we just ignore it.
 func (p *peerCommand) unmarshal(msg string) bool {
-	idx := strings.Index(msg, ",")
+	// the ID never contains a comma, so the last one is the separator
+	// even when the address happens to contain commas
+	idx := strings.LastIndex(msg, ",")
 	if len(msg) < 2 || idx == -1 {
 		return false
 	}
